@@ -217,6 +217,10 @@ def write_via(writer, target="StringIO", fname="out.cif"):
         return buf.getvalue()
     with tempfile.TemporaryDirectory(prefix="vf-c14-") as tmp:
         path = os.path.join(tmp, fname)
+        if target in ("str", "Path") and len(fname) % 2 == 0:
+            # the path already holds an older, longer file: saving replaces it
+            with open(path, "w", encoding="utf-8") as f:
+                f.write("#\\#CIF_1.1\ndata_older\n\n" + "".join(f"_old.item_{i} {i}\n" for i in range(400)))
         if target == "str":
             writer(path)
         elif target == "Path":
